@@ -491,3 +491,17 @@ def ret_const(fn, r):
         return v.cv
     v2 = fn.resolve(v)
     return v2.cv if v2 is not None else None
+
+
+def through_local(fn, leaf):
+    """A branch leaf that is a local holding the result of an expression (`won = cas(...); if (won)`) stands for
+    that expression: returns the defining expression (stripped), else the stripped leaf itself."""
+    l = strip(leaf)
+    seen = 0
+    while l is not None and l.k == "DeclRefExpr" and l.dk == "local" and l.did and seen < 4:
+        v = fn.reaching_def(l)
+        if v is None:
+            break
+        l = strip(v)
+        seen += 1
+    return l
